@@ -433,7 +433,7 @@ def main(chk):
                 'seed lists (Poisson mean, GTI filter); vignetting with fed uniforms (kept ⇔ u ≤ vign(E, θ)); simulated files: row counts vs ∫∫ S·Aeff over the good time for stationary '
                 'and periodic sources. non-trivial = time dependence, z ≠ 0 or nH > 0')
     chk.assumptions = TRUSTED
-    chk.lean(['IxpeVerif.Props.C03', 'IxpeVerif.Props.Audit.C03'], ['filter_event_times'])
+    chk.lean(['IxpeVerif.Props.C03', 'IxpeVerif.Props.Audit.C03'], ['filter_event_times', 'rates_source_pdf', 'rates_count_conv', 'rates_count_pdf', 'rates_vign_keep'])
     explore(chk)
     known_findings(chk)
     return chk.finish(level='proof', trusted=TRUSTED, search=lambda k: explore(chk, 3))
